@@ -78,7 +78,8 @@ def sensitivity(chk, only=None):
     verif = chk.VERIF
     rows = []
     rc = 0
-    for meta_path in sorted(glob.glob(os.path.join(verif, "seeded", "*", "meta.json"))):
+    metas = sorted(glob.glob(os.path.join(verif, "seeded", "*", "meta.json"))) + sorted(glob.glob(os.path.join(verif, "sensitivity", "*", "meta.json")))
+    for meta_path in metas:
         d = os.path.dirname(meta_path)
         meta = json.load(open(meta_path))
         sid = os.path.basename(d)
